@@ -5,4 +5,5 @@ package main
 func extra(repo string) {
 	hostFacts(repo)
 	pkgState(repo)
+	skeletons(repo)
 }
